@@ -14,6 +14,8 @@ R-C09.3  join: definite = intersection of first components, maybe = union of sec
          empty join = the entry value; liveness join = union; `eq` is set equality.
 R-C09.4  extremal values: definite assignment starts from all variables (greatest
          fixpoint); liveness starts empty except for borrowed variables.
+R-C09.6  every popped block is recomputed: join and apply_bb are unconditional statements of the loop body, with no
+         continue/break/return before them (blocks without predecessors get the empty join = entry value).
 R-C09.5  change detection: the cached value is updated and dependants are re-queued iff
          the value changed; all blocks are queued initially.
 """
@@ -108,6 +110,29 @@ def run(ctx: Ctx) -> None:
     for c in (live, assn):
         ctx.check("run" not in c.methods, "R-C09.1", f"{c.qualname}#uses-framework-run", c.where, {"overrides_run": "run" in c.methods},
                   "a concrete analysis brings its own worklist loop (not covered by the framework obligations)")
+
+    # ------------------------------------------------------------ R-C09.6 every popped block is recomputed
+    for c_, r_ in runs:
+        loops_ = [n for n in walk_no_nested(r_.node) if isinstance(n, ast.While)]
+        key_ = f"{r_.qualname}#every-popped-block-is-recomputed"
+        if len(loops_) != 1:
+            ctx.undecided("R-C09.6", key_, r_.where, f"{len(loops_)} while loops")
+            continue
+        body_ = loops_[0].body
+        def _top_index(name):
+            for i, st in enumerate(body_):
+                if isinstance(st, (ast.Assign, ast.AnnAssign, ast.Expr)) and any(isinstance(c, ast.Call) and isinstance(c.func, ast.Attribute) and c.func.attr == name for c in ast.walk(st)):
+                    return i
+            return None
+        ij, ia = _top_index("join"), _top_index("apply_bb")
+        early = []
+        if ij is not None and ia is not None:
+            for st in body_[: max(ij, ia)]:
+                early += [f"{type(x).__name__}@{x.lineno}" for x in ast.walk(st) if isinstance(x, (ast.Continue, ast.Break, ast.Return))]
+        ctx.check(ij is not None and ia is not None and not early, "R-C09.6", key_, f"{r_.module.rel}:{loops_[0].lineno}",
+                  {"join_is_unconditional": ij is not None, "apply_bb_is_unconditional": ia is not None, "early_exits_before_them": early},
+                  "some popped blocks are not recomputed (e.g. blocks without predecessors keep their initial value, which for the definite-assignment "
+                  "analysis is 'everything assigned'): the entry block's state is wrong and use-before-definition there goes unnoticed")
 
     # ------------------------------------------------------------ R-C09.1 / R-C09.5
     for c, r in runs:
@@ -278,9 +303,9 @@ def run(ctx: Ctx) -> None:
     try:
         out = ev.run_function(aj, {ps[0]: selfa, va: []}) if va else ("?", None)
         got = out[1] if out[0] == "return" else None
-        ok = isinstance(got, (tuple, list)) and len(got) == 2 and set(got[0]) == {"e"} and set(got[1]) in ({"e"}, {"e", "m"})
+        ok = isinstance(got, (tuple, list)) and len(got) == 2 and set(got[0]) == {"e"} and set(got[1]) == {"e", "m"}
         ctx.check(ok, "R-C09.3", f"{aj.qualname}#empty-join-is-entry-value", aj.where, {"empty_join": repr(got)},
-                  "a block without predecessors (the entry) must start from the variables assigned before entry")
+                  "a block without predecessors (the entry) must start from the variables assigned before entry: definitely-assigned = the given definite set, maybe-assigned = the given maybe set")
     except Unsupported as e:
         ctx.undecided("R-C09.3", f"{aj.qualname}#empty-join-is-entry-value", aj.where, str(e))
     lj = live.methods.get("join")
